@@ -27,8 +27,27 @@ func (p pset) xs() ring.DistributionParameters {
 	return ring.Ternary{P: 0.5}
 }
 
+// xe is the error distribution (nil: the default of the library).
+func (p pset) xe() ring.DistributionParameters {
+	switch p.Xe {
+	case "wide":
+		return ring.DiscreteGaussian{Sigma: 64, Bound: 384}
+	case "tight":
+		return ring.DiscreteGaussian{Sigma: 0.7, Bound: 2}
+	case "tern":
+		return ring.Ternary{P: 1.0 / 3}
+	case "ternH":
+		return ring.Ternary{H: (1 << p.LogN) / 8}
+	}
+	return nil
+}
+
 func (p pset) rlweParams() (rlwe.Parameters, error) {
-	return rlwe.NewParametersFromLiteral(rlwe.ParametersLiteral{LogN: p.LogN, Q: p.Q, P: p.P, Xs: p.xs(), RingType: p.ringType(), NTTFlag: !p.NoNTT})
+	lit := rlwe.ParametersLiteral{LogN: p.LogN, Q: p.Q, P: p.P, Xs: p.xs(), RingType: p.ringType(), NTTFlag: !p.NoNTT}
+	if xe := p.xe(); xe != nil {
+		lit.Xe = xe
+	}
+	return rlwe.NewParametersFromLiteral(lit)
 }
 
 type rlweEnv struct {
@@ -187,6 +206,9 @@ func (e *rlweEnv) encWork(key rlwe.EncryptionKey, dsk *rlwe.SecretKey) func(x an
 				o.add(fmt.Sprintf("EncryptZero/l%d", lvl), e.noiseOK(z, dsk, zp))
 			}
 		}
+		if sk, ok := key.(*rlwe.SecretKey); ok {
+			e.qpZeroSteps(enc, sk, &o)
+		}
 		return
 	}
 }
@@ -322,6 +344,7 @@ func (e *rlweEnv) encDecSubjects() (subs []*subject) {
 	subs = append(subs, &subject{Ctor: "rlwe.Decryptor.WithKey", Cfg: tag, Safe: true, Scratch: []string{"*.buff"}, Rebound: []string{"*.sk"},
 		Make: func() any { return rlwe.NewDecryptor(e.p, e.sk) }, Copy: func(o any) any { return o.(*rlwe.Decryptor).WithKey(e.sk2) }, Work: decWork,
 		Ref: func() outs { return decWork(rlwe.NewDecryptor(e.p, e.sk2)) }})
+	subs = append(subs, e.keygenSubjects()...)
 	return
 }
 
@@ -433,6 +456,7 @@ func (e *rlweEnv) evalSubjects() (subs []*subject) {
 			o.add("GetGaloisKey/missing", errString(err))
 			return
 		}})
+	subs = append(subs, e.evalChainSubjects()...)
 	return
 }
 
